@@ -81,6 +81,30 @@ def load(f):
     except gramfacts.GrammarError as e:
         from framework import Inconclusive
         raise Inconclusive("the generated parser does not have the table-driven shape the extraction reads (%s)" % e)
+    # function values that become known when productions are composed (an operator nonterminal returning the node
+    # constructor as a function pointer) are applied by the grammar algorithms through this
+    import cfg as _cfg
+    from norm import short_callee as _sc
+    _fn_terms = {}
+
+    def fn_term(name, nargs):
+        key_ = (name, nargs)
+        if key_ not in _fn_terms:
+            out_ = None
+            c_ = [d for d, b in f.bodies.items() if not b.get("parent") and b["arg_count"] == nargs and (_sc(d) == name or d == name)]
+            if len(c_) > 1:
+                # a constructor `Expr::eq` and the derived `PartialEq::eq` share a short name: the inherent one is meant
+                c_ = [d for d in c_ if not (f.bodies[d].get("impl") or {}).get("trait")] or c_
+            if len(c_) == 1:
+                try:
+                    outs_, _ = evalsum.summarize_fn(f, c_[0], arg_names=["$%d" % i for i in range(nargs)], opaque=helper_opaque)
+                    if len(outs_) == 1 and not outs_[0][0]:
+                        out_ = outs_[0][1]
+                except Exception:
+                    out_ = None
+            _fn_terms[key_] = out_
+        return _fn_terms[key_]
+    _cfg.FN_TERM = fn_term
     prods = []
     g["spec_helpers"] = {}
     for (lhs, rhs), a in sorted(g["productions"].items(), key=lambda x: x[1]):
